@@ -109,7 +109,9 @@ def pair_model(p):
     a_first = p["first"] == "a"
     gdecl = base + (ga + gb if a_first else gb + ga)
     templates = [TA, TB] if a_first else [TB, TA]
-    return {"decl": "\n".join(gdecl), "templates": templates, "system": "\n".join(sysl + ["system %s;" % ", ".join(procs if a_first else procs[::-1])])}
+    order = procs if a_first else procs[::-1]
+    sep = " < " if "procprio" in (p["a"]["feat"], p["b"]["feat"]) else ", "          # process priorities live in the system line
+    return {"decl": "\n".join(gdecl), "templates": templates, "system": "\n".join(sysl + ["system %s;" % sep.join(order)])}
 
 
 def key_of(m):
